@@ -97,6 +97,8 @@ def all_units():
         units_c02x.register(add)
         import units_c05x
         units_c05x.register(add)
+        import units_c20x
+        units_c20x.register(add)
         # development aid: additional unit modules (comma separated) can be tried out before they are registered here
         import os, importlib
         for m in filter(None, os.environ.get('VERIF_EXTRA_UNITS', '').split(',')):
